@@ -179,9 +179,9 @@ def scenario(cfg, n_resume, seed2):
 
 
 # --------------------------------------------------------------------------- crash safety
-def _child_save(s, P, plan, tmp, wfd=None):
+def _child_save(s, P, plan, tmp, wfd=None, bufsize=8192):
     try:
-        crash.install(plan, tmp)
+        crash.install(plan, tmp, buffer_size=bufsize)
         s.save_state(P)
         if wfd is not None:
             os.write(wfd, pickle.dumps(plan.events))
@@ -193,7 +193,7 @@ def _child_save(s, P, plan, tmp, wfd=None):
             os._exit(99)
 
 
-def crash_scenario(cfg, scen, max_points, n_warm=8):
+def crash_scenario(cfg, scen, max_points, n_warm=8, bufsize=8192):
     """scen in {'fresh','overwrite'}.  Returns dict(bad, points, died, events)."""
     out = dict(bad=[], points=0, died=0, events=[], completed=0, kinds={})
     tmp = tmpdir()
@@ -224,7 +224,7 @@ def crash_scenario(cfg, scen, max_points, n_warm=8):
         pid = os.fork()
         if pid == 0:
             os.close(r)
-            _child_save(s, os.path.join(tmp, "ck_crash.state"), crash.Plan("record"), tmp, w)
+            _child_save(s, os.path.join(tmp, "ck_crash.state"), crash.Plan("record"), tmp, w, bufsize)
         os.close(w)
         buf = b""
         while True:
@@ -263,7 +263,7 @@ def crash_scenario(cfg, scen, max_points, n_warm=8):
             reset()
             pid = os.fork()
             if pid == 0:
-                _child_save(s, P, crash.Plan("kill", target, off), tmp)
+                _child_save(s, P, crash.Plan("kill", target, off), tmp, None, bufsize)
             _, st = os.waitpid(pid, 0)
             code = os.WEXITSTATUS(st)
             out["points"] += 1
@@ -417,10 +417,13 @@ def run():
     if not ck.quick:
         ccfgs += [dict(target="gauss4", kernel="tpcn", clustering=True, mode="scalar", pool="threadlike", N=128, n_total=10 ** 6),
                   dict(target="vonmises", kernel="tpcn", clustering=False, mode="vec", N=512, n_total=10 ** 6)]
+    # the user-space buffer of the file object is part of the schedule: default 8 KiB, almost unbuffered, and
+    # "nothing reaches the OS before flush" (16 MiB) - a correct save is safe under all of them
     for j, cc in enumerate(ccfgs):
         for scen in ("overwrite", "fresh"):
-            ctasks.append(("tvf.checks.c08:crash_scenario", dict(cfg=dict(cc, seed=ck.subseed("crash", j)), scen=scen, max_points=maxp,
-                                                                  n_warm=ck.pick(8, 14)), None))
+            for bs in ((8192, 1 << 24) if ck.quick else (8192, 1 << 24, 64)):
+                ctasks.append(("tvf.checks.c08:crash_scenario", dict(cfg=dict(cc, seed=ck.subseed("crash", j)), scen=scen, max_points=maxp,
+                                                                      n_warm=ck.pick(8, 14), bufsize=bs), None))
     for i, st, val in farm.run(ctasks, timeout=1500, progress="C08-crash"):
         kw = ctasks[i][1]
         if st == "timeout":
@@ -429,13 +432,13 @@ def run():
         if st != "ok":
             ck.violation("scenario-crashed", f"crash scenario: {st} {str(val)[-500:]}", dict(cfg=kw["cfg"]))
             continue
-        ck.case(dict(crash=dict(scen=kw["scen"], cfg=kw["cfg"], io_events=val["events"][:12])), nontrivial=val["died"] > 0, sample=(i < 2))
+        ck.case(dict(crash=dict(scen=kw["scen"], bufsize=kw["bufsize"], cfg=kw["cfg"], io_events=val["events"][:12])), nontrivial=val["died"] > 0, sample=(i < 2))
         ck.event("kill points exercised", val["points"])
         ck.event("kill points at which the child really died", val["died"])
         for k, v in val["kinds"].items():
             ck.event(f"kill point before/inside {k}", v)
         for key, what in val["bad"]:
-            ck.violation(key, what, dict(cfg=kw["cfg"], scen=kw["scen"]))
+            ck.violation(key, what, dict(cfg=kw["cfg"], scen=kw["scen"], bufsize=kw["bufsize"]))
     if not ck.quick:
         stasks = [("tvf.checks.c08:strace_scenario", dict(cfg=dict(ccfgs[0], N=256, seed=ck.subseed("st", sc)), syscall=sc, max_k=mk), None)
                   for sc, mk in (("write", 40), ("rename", 3), ("fsync", 3), ("openat", 12), ("close", 12))]
